@@ -546,7 +546,11 @@ class Engine:
     def e_Attribute(self, node, st):
         d = self.dotted(node)
         def k(s, base):
-            return [(OK, s, self.getattr(s, base, node.attr, node))]
+            v = self.getattr(s, base, node.attr, node)
+            from .values import PropertyRead
+            if isinstance(v, PropertyRead):
+                return self.call_method(s, v.recv, v.name, [], {})
+            return [(OK, s, v)]
         return bind(self.eval(node.value, st), k)
 
     def getattr(self, st, base, attr, node=None):
@@ -556,6 +560,16 @@ class Engine:
                 if isinstance(v, Val) and isinstance(v.ty, (SetT, MapT, SeqT)):
                     return Val(v.term, v.ty, origin=("field", base, attr))
                 return v
+            # a @property of the real class (or of an abstract component): reading it runs it
+            shape = self.reg.shapes.get(base.shape)
+            is_prop = attr in getattr(shape, "properties", ())
+            if not is_prop and shape is not None and shape.cls and self.src.has_module(shape.cls[0]):
+                fi = self.src.find_method(shape.cls[0], shape.cls[1], attr)
+                is_prop = fi is not None and any((isinstance(d, ast.Name) and d.id in ("property", "cached_property")) or
+                                                 (isinstance(d, ast.Attribute) and d.attr in ("property", "cached_property")) for d in fi.node.decorator_list)
+            if is_prop:
+                from .values import PropertyRead
+                return PropertyRead(base, attr)
             return BoundMeth(base, attr)
         if isinstance(base, Native):
             return base.vc_getattr(self, st, attr)
